@@ -99,6 +99,17 @@ def sweep(tier, seed):
             if rt is not None:
                 rep.check(np.array_equal(rt, v), "unpack(pack(v)) == v", function="bits.py::pack",
                           input=dict(nbits=nbits, bitorder=order, v=v.tolist()), observed=rt, required=v)
+            # a sample count that is not a whole number of bytes: reproduced or refused, never shortened silently
+            for extra in range(1, f):
+                v2 = rng.integers(0, 1 << nbits, 3 * f + extra, dtype=np.uint8)
+                rep.case(("rt-partial", nbits, order, extra))
+                try:
+                    rt2 = bits.unpack(bits.pack(v2, nbits, bitorder=order), nbits, bitorder=order)
+                except ValueError:
+                    continue
+                rep.check(np.array_equal(rt2, v2), "unpack(pack(v)) lost samples of an array that is not a whole number of bytes",
+                          function="bits.py::pack", input=dict(nbits=nbits, bitorder=order, size=int(v2.size)),
+                          observed=int(rt2.size), required=int(v2.size))
     # BitsInfo default orders feed the reader/writer consistently (same order both ways)
     for nbits in (1, 2, 4):
         bi = bits.BitsInfo(nbits)
